@@ -14,8 +14,8 @@ META = dict(
               "every record is committed for real (fixed revision id, parents, timestamps) in 2a / pack-0.92 / swapped "
               "insertion order / fetched across formats, and TLC judges the hashes of the six real testament texts per pair",
     level_text="Exhaustive over the bounded pair space: every field of every base record is replaced by every other value "
-               "of its domain (domains chosen adversarially for a line-oriented text format: blanks, backslashes, "
-               "non-ASCII, empty / multi-line / differently terminated texts, binary and empty contents, negative and "
+               "of its domain (domains chosen adversarially for a line-oriented text format: single / double / leading / trailing "
+               "blanks and tabs in paths, link targets, messages and property values, backslashes, non-ASCII, empty / multi-line / differently terminated texts, binary and empty contents, negative and "
                "sub-hour zones, 32-bit-overflowing timestamps), so every pair differs in exactly one attested field; each "
                "base record is also stored in four ways. The text format itself is executed, not modelled (DESIGN 6): the "
                "specification contributes the attested-field definition, the pair space and the laws, TLC checks that the "
@@ -33,20 +33,21 @@ META = dict(
 
 # token tables: VALUES[field][token]; sizes, path names and parent lists are cross-checked with the specification
 VALUES = {
-    "f.path": ["a", "b c", "z"],
+    "f.path": ["a", "b c", "z", "b  c", "b c ", "b\tc"],
     "f.content": [b"A\n", b"A\nB\n", b"A", b"\x00\xff\n"],
     "f.exec": [False, True],
     "g.path": ["d/g", "d/h", "d\\g", "g"],
     "g.content": [b"G\n", b"", b"G\r\n"],
     "g.exec": [False, True],
     "l.path": ["l", "d/l"],
-    "l.target": ["a", "x y", "x/y", "x\\y", "é"],
-    "msg": ["m", "m\n", "m\nsecond", "m\u2028second", "", "\u00e9 \u00fc", "m "],
+    "l.target": ["a", "x y", "x/y", "x\\y", "é", "x  y", "x y ", "x\ty"],
+    "msg": ["m", "m\n", "m\nsecond", "m\u2028second", "", "\u00e9 \u00fc", "m ", " m", "m\t", "\tm", "\nm"],
     "committer": ["C <c@e.com>", "Cé <c@e.com>", "C  <c@e.com>"],
     "ts": [1000000000, 1000000001, 0, 2 ** 31 + 5],
     "tz": [0, 3600, -1800, 60],
     "parents": [["p1"], [], ["p2"], ["p1", "p2"], ["p2", "p1"]],
-    "props": [{}, {"p": "v"}, {"p": "v\n"}, {"p": "v\nw"}, {"p": "v", "q": ""}, {"q": "v"}, {"p": "é"}],
+    "props": [{}, {"p": "v"}, {"p": "v\n"}, {"p": "v\nw"}, {"p": "v", "q": ""}, {"q": "v"}, {"p": "é"},
+              {"p": "v "}, {"p": "v\t"}, {"p": " v"}, {"p": "\nv"}, {"p": "v\n\nw"}],
 }
 VARIANTS = ("2a", "pack-0.92", "2a-swapped", "fetched")
 WITNESSES = ("WitnessAlias", "WitnessExec", "WitnessRoot", "WitnessBackslash")
@@ -97,6 +98,16 @@ def texts_of(rec, variant):
                     meta["rX"]["revprops"] or {}, parents)
             if stored != want:          # the fixture, not the testament: the revision is not the record we meant to store
                 raise core.MachineryError("stored revision %r differs from the record %r (%s)" % (stored, want, variant))
+            rt = repo.revision_tree(b"rX")
+            with rt.lock_read():
+                got = {}
+                for path, ie in rt.iter_entries_by_dir():
+                    if path:
+                        got[path] = (ie.kind, rt.get_file_text(path) if ie.kind == "file" else
+                                     rt.get_symlink_target(path) if ie.kind == "symlink" else None,
+                                     bool(ie.kind == "file" and ie.executable))
+            if got != {p: (k, c, bool(x)) for p, k, c, x in tree.values()}:
+                raise core.MachineryError("stored tree %r differs from the record's %r (%s)" % (got, tree, variant))
             try:
                 return ac.testament_hashes(repo, b"rX")
             except Exception as e:
@@ -138,7 +149,7 @@ def field_group(fld):
 def run(ctx):
     env.init()
     import breezy.bzr.testament  # noqa: F401  (imported before forking)
-    base_vary = ("g.path", "props") if ctx.quick else ("g.path", "msg", "props")
+    base_vary = ("g.path", "parents") if ctx.quick else ("g.path", "l.path", "msg")
     data, _ = tlc.json_cases(ctx, "TestamentGen", cfg_text=gen_cfg(base_vary), label="TestamentGen", workers=4, timeout=3000)
     for w in WITNESSES:
         tlc.check(ctx, "TestamentGen", cfg_text=gen_cfg(("g.path",), (w,)), expect_violation=w, label="witness " + w, workers=4)
